@@ -18,3 +18,8 @@ pub struct Senders {
     pub events: EventStreamer,
     pub autoalloc: AutoAllocService,
 }
+
+// Verification hooks (add-only): expose private items to `crate::verif`.
+#[cfg(feature = "verif")]
+#[allow(unused_imports)]
+pub(crate) use tako_events::UpstreamEventProcessor;
